@@ -42,6 +42,14 @@
 (*    without a line, never a hang.  NoStaleError (the full requirement) holds *)
 (*    for StickyError = FALSE and is refuted for TRUE: a documented side       *)
 (*    finding, not a violation of the property.                                *)
+(*  - attribute VALUES may be live: a slog.LogValuer whose result is a         *)
+(*    function of a cell the environment changes between steps (Tick).  The    *)
+(*    line slog.TextHandler prints evaluates it when the record is handled,    *)
+(*    for the record's own attributes and for the handler's at every depth     *)
+(*    (the handler keeps them unresolved and appends them in Handle).          *)
+(*    ResolveOnDerive = TRUE (WithAttrs stores a.Value.Resolve(), as the       *)
+(*    stdlib handlers do) freezes the value of derivation time into the        *)
+(*    handler and its descendants: LiveValuesCurrent violated.                 *)
 EXTENDS Integers, Sequences, FiniteSets
 
 CONSTANTS Levels,        \* record levels offered to Log (slog.Level integers)
@@ -63,7 +71,10 @@ CONSTANTS Levels,        \* record levels offered to Log (slog.Level integers)
           Faults,        \* writer faults the environment may arm: subset of {1, 2, 3}
           MaxFaults,     \* bound on ArmFault steps
           DeferUnlock,   \* the mutex is released by a deferred call (also when Write panics)
-          StickyError    \* after a Write error the shared encoder fails every later Encode
+          StickyError,   \* after a Write error the shared encoder fails every later Encode
+          LiveKind,      \* 0: no live values; 1: LogValuer of the cell; 2: LogValuer -> group holding the cell and a LogValuer
+          MaxTicks,      \* bound on the environment changing the cell
+          ResolveOnDerive \* FALSE: handler attributes stay unresolved until Handle; TRUE: WithAttrs resolves them
 
 VARIABLES thr,      \* the configured level (copied to every derived handler)
           attrs,    \* attrs[h]: the accumulated attribute ids of handler h     (specification)
@@ -78,13 +89,15 @@ VARIABLES thr,      \* the configured level (copied to every derived handler)
           nfaults,  \* ArmFault steps so far
           encErr,   \* the shared encoder remembers a Write error
           locked,   \* the mutex was left locked
+          cell,     \* what the live values currently evaluate to (changed by the environment)
+          frozen,   \* frozen[h]: for each attribute of h, what it evaluated to when it was given to WithAttrs
           rets,     \* how each Handle call ended, in order: 0 line written, 1 returned the writer's error,
                     \* 3 the writer's panic went through, 2 returned a stale error, 8 panicked, 9 never returned
           out,      \* the lines written so far, in order
           ngroups,  \* WithGroup calls so far (each of them panicked)
           steps
 
-vars == <<thr, attrs, parent, sl, heap, recs, rheap, item, panics, armed, nfaults, encErr, locked, rets, out, ngroups, steps>>
+vars == <<thr, attrs, parent, sl, heap, recs, rheap, item, panics, armed, nfaults, encErr, locked, cell, frozen, rets, out, ngroups, steps>>
 
 LevelError == 8
 Severity(lv) == IF lv >= LevelError THEN "ERROR" ELSE "NORMAL"
@@ -103,6 +116,12 @@ BugAttr == 0 - 1
 Owner(id) == id \div 10
 BatchOf(h, k) == [i \in 1..k |-> HAttr(h, i)]
 RecOf(r, m) == [i \in 1..m |-> RAttr(r, i)]
+(* Live ids: the first attribute of every second batch / record. *)
+IsLive(id) == /\ LiveKind > 0
+              /\ IF id > 0 THEN id % 10 = 1 /\ (id \div 10) % 2 = 0
+                 ELSE id # BugAttr /\ (0 - id) % 10 = 1 /\ ((0 - id) \div 10) % 2 = 0
+ValOf(id, c) == IF IsLive(id) THEN c ELSE 0
+ValsOf(ids, c) == [j \in 1..Len(ids) |-> ValOf(ids[j], c)]
 
 RECURSIVE Ancestors(_)
 Ancestors(h) == IF h = 0 THEN {} ELSE {h} \cup Ancestors(parent[h])
@@ -177,6 +196,7 @@ Init == /\ thr \in Thresholds
         /\ item = [large |-> FALSE, bound |-> TRUE]
         /\ panics = 0
         /\ armed = 0 /\ nfaults = 0 /\ encErr = FALSE /\ locked = FALSE /\ rets = <<>>
+        /\ cell = 0 /\ frozen = << <<>> >>
         /\ out = <<>>
         /\ ngroups = 0
         /\ steps = 0
@@ -191,15 +211,20 @@ Derive(h, k) ==
            a == AppendIn(heap, base, batch)
        IN /\ attrs' = Append(attrs, attrs[h] \o batch)
           /\ parent' = Append(parent, h)
+          /\ frozen' = Append(frozen, frozen[h] \o ValsOf(batch, cell))
           /\ sl' = Append(sl, a.s)
           /\ heap' = a.heap
-    /\ UNCHANGED <<thr, recs, rheap, item, panics, armed, nfaults, encErr, locked, rets, out, ngroups>>
+    /\ UNCHANGED <<thr, recs, rheap, item, panics, armed, nfaults, encErr, locked, cell, rets, out, ngroups>>
 
 (* A line: r = the record's number (0: not kept by the caller), rec = the      *)
 (* record's own attributes, attrs = everything the message shows.              *)
+(* vals = what the attributes of the message evaluate to: the record's own at  *)
+(* Handle time, the handler's at Handle time too unless WithAttrs resolved     *)
+(* them; want = all of them at Handle time, which is what TextHandler prints.  *)
 Line(h, lv, r, rec, shown) ==
-    [h |-> h, lv |-> lv, sev |-> Severity(lv), r |-> r, rec |-> rec, attrs |-> shown]
-ExpectedLine(h, lv, r, rec) == Line(h, lv, r, rec, rec \o attrs[h])
+    [h |-> h, lv |-> lv, sev |-> Severity(lv), r |-> r, rec |-> rec, attrs |-> shown,
+     vals |-> ValsOf(rec, cell) \o (IF ResolveOnDerive THEN frozen[h] ELSE ValsOf(attrs[h], cell)),
+     want |-> ValsOf(rec \o attrs[h], cell)]
 
 (* reset() and the pooled item: whether this call finds its text again. *)
 StillBound == IF RebindOnLarge /\ item.large THEN FALSE ELSE item.bound
@@ -258,30 +283,36 @@ LogNew(h, lv, sz, shape) ==
            rv  == [lv |-> lv, sz |-> sz, attrs |-> ids, front |-> b.front, back |-> b.back]
        IN /\ recs' = Append(recs, rv)
           /\ HandleOn(b.heap, h, r, rv)
-    /\ UNCHANGED <<thr, attrs, parent, sl, heap, nfaults, ngroups>>
+    /\ UNCHANGED <<thr, attrs, parent, sl, heap, nfaults, cell, frozen, ngroups>>
 
 (* The caller hands a record value it already used to a handler again. *)
 ReLog(h, r) ==
     /\ HandleOn(rheap, h, r, recs[r])
-    /\ UNCHANGED <<thr, attrs, parent, sl, heap, recs, nfaults, ngroups>>
+    /\ UNCHANGED <<thr, attrs, parent, sl, heap, recs, nfaults, cell, frozen, ngroups>>
 
 (* The environment: the next Write call fails in the given way. *)
 ArmFault(k) ==
     /\ armed = 0 /\ nfaults < MaxFaults
     /\ armed' = k
     /\ nfaults' = nfaults + 1
-    /\ UNCHANGED <<thr, attrs, parent, sl, heap, recs, rheap, item, panics, encErr, locked, rets, out, ngroups>>
+    /\ UNCHANGED <<thr, attrs, parent, sl, heap, recs, rheap, item, panics, encErr, locked, cell, frozen, rets, out, ngroups>>
+
+(* The environment changes what the live values evaluate to. *)
+Tick ==
+    /\ LiveKind > 0 /\ cell < MaxTicks
+    /\ cell' = cell + 1
+    /\ UNCHANGED <<thr, attrs, parent, sl, heap, recs, rheap, item, panics, armed, nfaults, encErr, locked, frozen, rets, out, ngroups>>
 
 (* Abstract form used by trace validation: a record given by its attribute     *)
 (* ids, handled once, its storage not modelled.                                *)
 LogRec(h, lv, rec) ==
     /\ out' = Append(out, Line(h, lv, 0, rec, rec \o Contents(sl[h])))
-    /\ UNCHANGED <<thr, attrs, parent, sl, heap, recs, rheap, item, panics, armed, nfaults, encErr, locked, rets, ngroups>>
+    /\ UNCHANGED <<thr, attrs, parent, sl, heap, recs, rheap, item, panics, armed, nfaults, encErr, locked, cell, frozen, rets, ngroups>>
 
 (* h.WithGroup(name) is not supported: it panics and changes nothing. *)
 WithGroup(h) ==
     /\ ngroups' = ngroups + 1
-    /\ UNCHANGED <<thr, attrs, parent, sl, heap, recs, rheap, item, panics, armed, nfaults, encErr, locked, rets, out>>
+    /\ UNCHANGED <<thr, attrs, parent, sl, heap, recs, rheap, item, panics, armed, nfaults, encErr, locked, cell, frozen, rets, out>>
 
 Shapes == RecShapes \cup {<<m>> : m \in RecSizes}
 
@@ -293,13 +324,14 @@ Next == /\ steps < MaxSteps
              \/ RelogsSoFar < MaxRelogs /\ \E r \in 1..Len(recs) : ReLog(h, r)
              \/ ngroups < MaxGroups /\ WithGroup(h)
            \/ \E k \in Faults : ArmFault(k)
+           \/ Tick
 
 Spec == Init /\ [][Next]_vars
 
 ----------------------------------------------------------------------------
 TypeOK ==
     /\ thr \in Thresholds
-    /\ Len(parent) = NumH /\ Len(sl) = NumH
+    /\ Len(parent) = NumH /\ Len(sl) = NumH /\ Len(frozen) = NumH
     /\ \A h \in Handlers : /\ parent[h] \in 0..(h - 1)
                            /\ sl[h].len <= sl[h].cap
                            /\ (sl[h].cap > 0 => sl[h].arr \in 1..Len(heap) /\ Len(heap[sl[h].arr]) >= sl[h].cap)
@@ -313,7 +345,7 @@ AttrsImmutable == \A h \in Handlers : Contents(sl[h]) = attrs[h]
 
 (* Every line is the required one ... *)
 LinesCorrect == \A i \in 1..Len(out) :
-    /\ out[i] = ExpectedLine(out[i].h, out[i].lv, out[i].r, out[i].rec)
+    /\ out[i].attrs = out[i].rec \o attrs[out[i].h]
     /\ out[i].sev = (IF out[i].lv >= 8 THEN "ERROR" ELSE "NORMAL")
 (* ... in particular no attribute of a sibling (or of any handler that is not  *)
 (* an ancestor), of another record, or of slog's own making appears in it.     *)
@@ -330,6 +362,10 @@ RecordStorageUntouched == \A r \in 1..Len(recs) :
 
 (* One line per Handle call: none of them panicked, and the pooled text        *)
 (* handler still writes into the buffer Handle reads from.                     *)
+(* Every message shows what its attributes evaluate to when the record is      *)
+(* handled, not when some handler was derived.                                 *)
+LiveValuesCurrent == \A i \in 1..Len(out) : out[i].vals = out[i].want
+
 NoPanic == panics = 0
 ItemBound == item.bound
 
